@@ -39,6 +39,9 @@ def unwrap(expr, wrappers, assigns, depth=0):
             if nm in wrappers and expr.args:
                 expr = expr.args[0]
                 continue
+            if nm in wrappers and expr.keywords and expr.keywords[0].arg in ('force', 'data', 'possible_screw'):
+                expr = expr.keywords[0].value          # the payload handed over by keyword
+                continue
         if isinstance(expr, ast.Name) and expr.id in assigns and len(assigns[expr.id]) == 1:
             expr = assigns[expr.id][0]
             continue
@@ -154,6 +157,10 @@ def _agrees(core, op, reflected, other, assigns, name):
         from_self = (isinstance(core.func.value, ast.Name) and core.func.value.id == 'self') or \
                     (isinstance(core.func.value, ast.Call) and isinstance(core.func.value.func, ast.Name)
                      and core.func.value.func.id == 'super')
+        # Parent.__op__(self, other): the superclass operator named explicitly
+        if not from_self and isinstance(core.func.value, ast.Name) and core.func.value.id[:1].isupper() and core.args \
+                and isinstance(core.args[0], ast.Name) and core.args[0].id == 'self':
+            from_self = True
         if tgt in DUNDERS and from_self:
             top, trefl = DUNDERS[tgt]
             if top is op and (trefl == reflected or op in COMMUTATIVE):
